@@ -377,6 +377,15 @@ def run_c07(R, tier, rng):
                     with np.errstate(all="ignore"):
                         C.cmp(f"{ufn}.accumulate skewed {dt} {ls} {vals}", "accumulate/skewed-shape", True, lambda: ra_obs(uf.accumulate(RaggedArray(X, dtype=dt), axis=-1)),
                               lambda: rows_obs([uf.accumulate(r) for r in rows], dt), py=f"np.{ufn}.accumulate(RaggedArray({X}, dtype='{dt}'), axis=-1)")
+    # half precision: every partial sum is rounded to float16, as numpy rounds it on the row alone
+    for ls in ([4, 2], [1, 0, 4, 3], [4], [2, 2, 2]):
+        for vals in ([2048.0, 1.0, 1.0, 1.0, 0.5, 3.0], [1000.0, 1000.5, 0.25, 60000.0, 1.0], [0.1, 0.2, 0.3, 0.7]):
+            X = fill(ls, vals, 0); rows = [np.array(r, dtype="float16") for r in X]
+            for ufn in ("add", "subtract"):
+                uf = getattr(np, ufn)
+                with np.errstate(all="ignore"):
+                    C.cmp(f"{ufn}.accumulate float16 {ls} {vals}", "accumulate/float16", True, lambda: ra_obs(uf.accumulate(RaggedArray(X, dtype="float16"), axis=-1)),
+                          lambda: rows_obs([uf.accumulate(r) for r in rows], "float16"), py=f"np.{ufn}.accumulate(RaggedArray({X}, dtype='float16'), axis=-1)")
     for si, ls in enumerate(sh):
         n = len(ls); nt = n >= 2 and sum(ls) > 0
         for rep in range(3 if tier != "thorough" else 8):
@@ -491,6 +500,9 @@ def run_c08(R, tier, rng):
             C.cmp(f"nonzero {tagc}", "nonzero", nt, lambda: (lambda nz_: [kl(a) for a in nz_] + [str(a.dtype) for a in nz_])(np.nonzero(mk())),
                   lambda: [[i for i, r in enumerate(X) for j, v in enumerate(r) if np.dtype(dt).type(v) != 0], [j for i, r in enumerate(X) for j, v in enumerate(r) if np.dtype(dt).type(v) != 0], "int64", "int64"],
                   py=f"np.nonzero(RaggedArray({X}, dtype='{dt}'))")
+            C.cmp(f"nonzero is a (rows, cols) tuple {tagc}", "nonzero/as-index", nt,
+                  lambda: (lambda a_, nz_: [type(nz_).__name__, len(nz_), kl(a_[nz_]) if n and sum(ls) else []])(mk(), np.nonzero(mk())) if VARIANT[0] == "fresh" else ["tuple", 2, [key(np.dtype(dt).type(v)) for r in X for v in r if np.dtype(dt).type(v) != 0]],
+                  lambda: ["tuple", 2, [key(np.dtype(dt).type(v)) for r in X for v in r if np.dtype(dt).type(v) != 0] if n and sum(ls) else []], py=f"a = RaggedArray({X}, dtype='{dt}'); nz = np.nonzero(a); type(nz), len(nz), a[nz]")
             C.cmp(f"ra.nonzero {tagc}", "nonzero", nt, lambda: [kl(a) for a in mk().nonzero()],
                   lambda: [[i for i, r in enumerate(X) for j, v in enumerate(r) if np.dtype(dt).type(v) != 0], [j for i, r in enumerate(X) for j, v in enumerate(r) if np.dtype(dt).type(v) != 0]])
             if VARIANT[0] == "view" and n and rep == 0:        # the method spelling as the FIRST thing done to every kind of derived array (the rotation above reaches only one kind per case)
@@ -641,6 +653,12 @@ def run_c09(R, tier, rng):
                   py=f"RaggedArray([[{big}, 2.0]] + {nsmall} rows starting with 1.0, dtype='{dt}').sum(axis=0)")
             C.cmp(f"mean(axis=0) {dt}/big+small n={nsmall}", "colmean-precision", True, lambda: [key(float(np.dtype(dt).type(x))) for x in RA(X, dt).mean(axis=0)],
                   lambda: [key(float(np.dtype(dt).type(e / c))) for e, c in zip(exact, cnt)], py=f"RaggedArray([[{big}, 2.0]] + {nsmall} rows of 2.0s, dtype='{dt}').mean(axis=0)")
+    # half precision: ordinary values whose column SUM does not fit a float16 although every value and the mean do
+    X16 = [[1000.0 + 40 * i, 3.0][:1 + i % 2] for i in range(47)]
+    c16 = [np.array([r[j] for r in X16 if len(r) > j], dtype="float16") for j in range(2)]
+    with np.errstate(all="ignore"):
+        C.cmp("mean(axis=0) float16, column sum beyond 65504", "colmean/float16", True, lambda: [key(float(x)) for x in RA(X16, "float16").mean(axis=0)],
+              lambda: [key(float(np.mean(c_))) for c_ in c16], py="RaggedArray([[1000.0 + 40*i, 3.0][:1 + i % 2] for i in range(47)], dtype='float16').mean(axis=0)")
     # the column index given as a narrow numpy integer scalar, on a long lazily derived strided array
     long_rows = [list(range(300)), list(range(1000, 1250)), list(range(5000, 5290)), [7]]
     for cstep in (2, 3, -2):
